@@ -8,7 +8,7 @@ from vlib import Infra
 
 IDS = ['C18']
 KINDS = props.LEDGER_KINDS + ['wallet-status', 'unready-wallet-selectable', 'removed-residue', 'retry-after-fault-failed',
-                              'phantom-wallet', 'stuck-after-fault', 'created-wallet-unusable', 'skipped-address-index', 'duplicate-address',
+                              'phantom-wallet', 'stuck-after-fault', 'trace-rejected', 'free-not-quiescent', 'created-wallet-unusable', 'skipped-address-index', 'duplicate-address',
                               'address-not-listed', 'quiescent-not-on-best']
 props.KINDS['C18'] = KINDS
 FAULTABLE = ('HandleBlock', 'Import', 'Remove', 'ImportStep', 'RemoveStep')
@@ -71,7 +71,17 @@ def check(pid, tier, scratch, replay):
     for k in range(2 if quick else 8):
         jobs.append(dict(u=base[0]['u'], h=[], mode='fault-addresses', opt=dict(seed=vlib.seed() + k), src='fault-addresses'))
     results = props.replay_jobs(scratch, jobs)
-    redo = [i for i, r in enumerate(results) if r is None or r.get('died') or 'stuck-after-fault' in props.kinds_of(r)]
+    # code -> spec with faults: everything runs freely, up to three storage faults hit steps of the follower and updates of
+    # the worker at random; every line (fault, rollback, commit with its state, resume ...) must be explained by
+    # spec/WalletTrace.tla (HandleBlockFault, WorkerFaultT: nothing durable, task re-queued, follower resumed), and the
+    # system must become quiescent afterwards
+    tjobs, tres, tjudged, tstates = props.trace_stage(scratch, [
+        ('Gen_Pay.cfg', 'MC_Pay.tla', {}, dict(props.LIFE), 'trace-f', 40 if quick else 800, 16),
+        ('Gen_Stake.cfg', 'MC_Stake.tla', props.STAKE_X, dict(props.REMOVE_ONLY), 'trace-f', 25 if quick else 500, 16),
+        ('Gen_Imp.cfg', 'MC_Imp.tla', {}, dict(props.IMPORT_ONLY), 'trace-f', 25 if quick else 500, 18)])
+    jobs += tjobs
+    results += tres
+    redo = [i for i, r in enumerate(results) if jobs[i]['mode'] != 'trace-f' and (r is None or r.get('died') or 'stuck-after-fault' in props.kinds_of(r))]
     if redo and len(redo) <= 40:
         for i, r in zip(redo, props.replay_jobs(scratch, [jobs[i] for i in redo])):
             if r is not None and not r.get('died'):
@@ -103,6 +113,8 @@ def check(pid, tier, scratch, replay):
         if job['mode'] == 'fault':
             print('  storage call %d of step %d (%s) fails; history: %s' % (job['opt']['fault_call'], job['opt']['fault_step'],
                   job['h'][job['opt']['fault_step']]['a'], props.describe(job['h'])))
+        if job['mode'] == 'trace-f':
+            print('  free-running replay with injected storage faults; history: %s' % props.describe(job['h']))
         for d in (res.get('diffs') or [])[:5]:
             print('  diff: %s %s %s want=%s got=%s' % (d['kind'], d.get('wallet', ''), d['what'], d['want'], d['got']))
         if res.get('err'):
@@ -113,6 +125,7 @@ def check(pid, tier, scratch, replay):
     cov = dict(states=mc.get('distinct', 1), transitions=mc.get('generated', 1), traces_validated_against_impl=len(jobs) - infra,
                samples=samples, fault_free_twins=len(base), history_fault_points=n_hist_faults, faulted_steps_by_action=by_action,
                quiescent_points_compared=compared, inconclusive=infra, generator_runs=gen_runs,
+               free_running_traces_with_injected_faults_judged_by_tlc=tjudged, trace_judge_states=tstates,
                evaluations=len(jobs), distinct_nontrivial=len(set(json.dumps([j['opt'], props.describe(j['h'])]) for j in jobs)),
                rule='(history, step, storage-call index) triples: the fault-free twin counts the storage calls of each step; the chosen call then fails once; block steps must roll back and be repaired by the next tip, API calls must report and succeed when repeated, worker steps must be re-queued; at every later quiescent point the wallet API is compared with the specification (the fault-free run)',
                exhaustive=False)
